@@ -1523,9 +1523,8 @@ def check_readxml(ctx, tu):
     if bufvar is None:
         # an array from operator new: value-initialised (`new char[n + 1]()`) is a zeroed buffer in another container - not followed here;
         # default-initialised bytes stay indeterminate wherever fread (whose result must then bound the parse) delivers less than asked for
-        news = [(cand, x) for cand in [f] + [y for y in reachable_fns(tu, f) if y['id'] != f['id'] and tu.fn_file(y) == XML_FILE]
-                for x in tu.walk(tu.body(cand)) if x.get('kind') == 'CXXNewExpr' and x.get('isArray') and
-                re.search(r'\bchar\b', x.get('type', {}).get('qualType', ''))]
+        news = [(f, x) for x in tu.walk(tu.body(f)) if x.get('kind') == 'CXXNewExpr' and x.get('isArray') and
+                re.search(r'\bchar\b', x.get('type', {}).get('qualType', ''))]       # (the reader's own buffer, not a token helper's scratch)
         rd = [x for x in tu.walk(tu.body(f)) if x.get('kind') == 'CallExpr' and tu.sd(x).get('q', '').split('::')[-1] in ('fread', 'fread_unlocked')]
         for cand, x in news:
             if cand['id'] != f['id'] and not rd:
